@@ -338,11 +338,20 @@ func describe(c []int) string {
 }
 
 // usedSchema: a schema value that already holds declarations of every kind (a reused decode target).
-func usedSchema() *schema.Schema {
-	var s schema.Schema
-	_ = s.UnmarshalCedar([]byte(`@old("x") namespace Old { type OldT = Long; entity OldE in [OldE] { a: OldT } tags String; entity OldEnum enum ["x"]; action oldAct appliesTo { principal: OldE, resource: OldE, context: { c: Bool } }; }
-entity TopOld; action topOld;`))
-	return &s
+// usedSchemas: receivers that already hold other declarations, in two prior-use states: one
+// that has only been decoded, and one on which every accessor has been called (rendered,
+// converted, AST taken, resolved last), so that anything those calls cache is populated.
+func usedSchemas() []*schema.Schema {
+	const old = `@old("x") namespace Old { type OldT = Long; entity OldE in [OldE] { a: OldT } tags String; entity OldEnum enum ["x"]; action oldAct appliesTo { principal: OldE, resource: OldE, context: { c: Bool } }; }
+entity TopOld; action topOld;`
+	var a, b schema.Schema
+	_ = a.UnmarshalCedar([]byte(old))
+	_ = b.UnmarshalCedar([]byte(old))
+	_, _ = b.MarshalCedar()
+	_, _ = b.MarshalJSON()
+	_ = b.AST()
+	_, _ = b.Resolve()
+	return []*schema.Schema{&a, &b}
 }
 
 func checkConfig(t *core.T, c []int) {
@@ -398,11 +407,14 @@ func checkAST(t *core.T, desc, class string, ast0 *sast.Schema) {
 			t.Fail(sig("text-roundtrip-changes-resolved-schema"), in(), want, got)
 		}
 		// decoding replaces a schema value that already holds declarations
-		sUsed := usedSchema()
-		if err := sUsed.UnmarshalCedar(text); err != nil {
-			t.Fail(sig("text-into-used-receiver"), in(), "parses", err.Error())
-		} else if g, e := resolveCanon(sUsed); (e == nil) != (gerr == nil) || g != got {
-			t.Fail(sig("text-into-used-receiver"), in(), got, g+fmt.Sprint(e))
+		for k, sUsed := range usedSchemas() {
+			if err := sUsed.UnmarshalCedar(text); err != nil {
+				t.Fail(sig(fmt.Sprintf("text-into-used-receiver:%d", k)), in(), "parses", err.Error())
+			} else if g, e := resolveCanon(sUsed); (e == nil) != (gerr == nil) || g != got {
+				t.Fail(sig(fmt.Sprintf("text-into-used-receiver:%d", k)), in(), got, g+fmt.Sprint(e))
+			} else if t3, e := sUsed.MarshalCedar(); e != nil || !bytes.Equal(t3, text) {
+				t.Fail(sig(fmt.Sprintf("text-into-used-receiver-renders-differently:%d", k)), in(), string(text), string(t3)+fmt.Sprint(e))
+			}
 		}
 		text2, err := s1.MarshalCedar()
 		if err != nil || !bytes.Equal(text, text2) {
@@ -436,11 +448,14 @@ func checkAST(t *core.T, desc, class string, ast0 *sast.Schema) {
 	case gerr == nil && got != want:
 		t.Fail(sig("json-roundtrip-changes-resolved-schema"), jin(), want, got)
 	}
-	jUsed := usedSchema()
-	if err := jUsed.UnmarshalJSON(js); err != nil {
-		t.Fail(sig("json-into-used-receiver"), jin(), "decodes", err.Error())
-	} else if g, e := resolveCanon(jUsed); (e == nil) != (gerr == nil) || g != got {
-		t.Fail(sig("json-into-used-receiver"), jin(), got, g+fmt.Sprint(e))
+	for k, jUsed := range usedSchemas() {
+		if err := jUsed.UnmarshalJSON(js); err != nil {
+			t.Fail(sig(fmt.Sprintf("json-into-used-receiver:%d", k)), jin(), "decodes", err.Error())
+		} else if g, e := resolveCanon(jUsed); (e == nil) != (gerr == nil) || g != got {
+			t.Fail(sig(fmt.Sprintf("json-into-used-receiver:%d", k)), jin(), got, g+fmt.Sprint(e))
+		} else if j3, e := jUsed.MarshalJSON(); e != nil || !bytes.Equal(j3, js) {
+			t.Fail(sig(fmt.Sprintf("json-into-used-receiver-encodes-differently:%d", k)), jin(), string(js), string(j3)+fmt.Sprint(e))
+		}
 	}
 	js2, err := s2.MarshalJSON()
 	if err != nil || !bytes.Equal(js, js2) {
